@@ -77,7 +77,7 @@ Proof.
     assert (Eo : items_marshal (if (7 <? S (S (S (S (S (S (S (length opts))))))))%nat then [IData opts] else []) = Ok opts).
     { destruct opts as [|o os]; cbn; [reflexivity|]. now rewrite app_nil_r. }
     rewrite Eo. cbn [bind]. rewrite Lopts.
-    assert (En : N.of_nat ol mod 256 = N.land c 15) by (unfold ol; pose proof (land15_lt c); lia).
+    assert (En : N.of_nat ol = N.land c 15) by (unfold ol; pose proof (land15_lt c); lia).
     rewrite En. replace (15 <? N.land c 15) with false by (pose proof (land15_lt c); lia).
     pose proof (fctrl_roundtrip c ltac:(assumption)) as Fc. cbn zeta in Fc. rewrite Fc. cbn [bind].
     rewrite rev_rev4, le2_roundtrip by assumption. reflexivity. }
